@@ -36,9 +36,10 @@ BUDGET_S = {"quick": 75, "thorough": 800}
 
 
 def plan(tier):
+    small = [{"part": "smallmtu", "lo": 362, "hi": 392}, {"part": "smallmtu", "lo": 392, "hi": 512 if tier == "thorough" else 420}]
     if tier == "quick":
-        return [{"n": 500, "i": i} for i in range(16)]
-    return [{"n": 12000, "i": i} for i in range(14)] + [{"bulk": 6000, "seed": 1}, {"bulk": 6000, "seed": 2}]
+        return small + [{"n": 500, "i": i} for i in range(14)]
+    return small + [{"n": 12000, "i": i} for i in range(14)] + [{"bulk": 6000, "seed": 1}, {"bulk": 6000, "seed": 2}]
 
 
 KINDS = ["random", "random", "magic", "hdr-garbage", "hdr-empty", "hdr-empty", "crc-garbage", "crc-msgs", "hello", "hello", "hello-trunc", "hello-big",
@@ -353,7 +354,50 @@ def body(ctx, c, bulk=0):
     return n_inj, flags
 
 
+SMALL_MTU_SIG = "amplification-hello-reply-exceeds-padded-hello-below-mtu-392"
+
+
+def smallmtu_case(ctx, mtu, flavour):
+    """the smallest MTUs at which a handshake still completes: one well-formed, fully padded hello from an address that then
+    stays silent, an honest client keeping the loop alive; cumulative bytes per address as in the main part"""
+    case = {"part": "smallmtu", "mtu": mtu, "flavour": flavour}
+    ctx.case(case)
+    with W.World(seed=mtu, flavour=flavour, mtu=mtu) as w:
+        h = w.add_client()
+        h.connect()
+        connected = w.run(3.0, 0.017, until=lambda: h.connected() and h.laddr in w.ctxt.connections)
+        atk = Attacker(w, mtu)
+        addr = ("10.99.0.1", 5300)
+        d = W.build_datagram(True, int(w.clock.t), 1, 0, 0, W.T_CLIENT_HELLO, [(1, W.T_CLIENT_HELLO, atk.hello_msg(atk.key()))])
+        w.net.push(w.clock.t + 0.001, w.server_addr, addr, d)
+        for _ in range(160):
+            if h.connected():
+                h.send(b"ECHO" + struct.pack(">IH", 1, 1) + b"x", retry=0, callback=False)
+            w.step(0.017)
+        got = w.server_bytes_in.get(addr, 0)
+        out = w.server_bytes_out.get(addr, 0)
+        n_out = sum(1 for em in w.net.log if em.dst == addr)
+        ctx.label("smallmtu-handshake-%s" % ("works" if connected else "does-not-work"))
+        if out > got:
+            sig = SMALL_MTU_SIG if (mtu < 392 and n_out == 1 and out - got <= 24) else "amplification"
+            ctx.violation(sig, "MTU %d (%s): a silent address sent one padded client hello of %d bytes and received %d bytes in %d datagram(s)" % (
+                mtu, flavour, got, out, n_out), case)
+        if connected:
+            ctx.nt(("smallmtu", mtu, flavour))
+    return connected
+
+
+def run_smallmtu(spec, ctx):
+    for mtu in range(spec["lo"], spec["hi"]):
+        for flavour in ("udp", "twisted"):
+            smallmtu_case(ctx, mtu, flavour)
+    ctx.sample({"part": "smallmtu", "mtus": [spec["lo"], spec["hi"] - 1]})
+    ctx.exhaustive_sub.add("MTU %d..%d x both flavours: one padded hello from a silent address" % (spec["lo"], spec["hi"] - 1))
+
+
 def run_shard(spec, ctx):
+    if spec.get("part") == "smallmtu":
+        return run_smallmtu(spec, ctx)
     if "bulk" in spec:
         c = {"seed": spec["seed"], "flavour": "udp" if spec["seed"] % 2 else "twisted", "mtu": 1500 if spec["seed"] % 2 else 512, "honest": 2,
              "blocked": ["10.66.0.1"], "blocked_client": True, "ticks": []}
@@ -377,4 +421,7 @@ def run_shard(spec, ctx):
 
 def replay_case(case, ctx):
     ctx.last_case = case
+    if case.get("part") == "smallmtu":
+        smallmtu_case(ctx, case["mtu"], case["flavour"])
+        return
     body(ctx, case["c"], bulk=case.get("bulk", 0))
